@@ -36,6 +36,9 @@ type Env struct {
 	// PostErrs holds the error values returned by "error"/"issue" PostTransforms, by node id and index.
 	PostErrs map[[2]int]error
 	shared   map[int]sharedSchema
+	// Owned lists the reference-typed values handed to the schema at construction
+	// (slice defaults, OneOf lists, Contains arguments): the schema owns them from then on.
+	Owned []reflect.Value
 }
 
 func (e *Env) Reset() { e.Log = e.Log[:0] }
@@ -280,6 +283,11 @@ func convList[T any](vs []Val) []T {
 	return out
 }
 
+func own[T any](e *Env, v T) T {
+	e.Owned = append(e.Owned, reflect.ValueOf(v))
+	return v
+}
+
 type number interface {
 	int | int32 | int64 | float32 | float64
 }
@@ -308,7 +316,7 @@ func buildNumber[T number](e *Env, n *Node, s *z.NumberSchema[T]) *z.NumberSchem
 		case "gte":
 			s.GTE(convTo[T](*ts.Arg), o...)
 		case "oneof":
-			s.OneOf(convList[T](ts.Args), o...)
+			s.OneOf(own(e, convList[T](ts.Args)), o...)
 		case "func":
 			s.TestFunc(e.testFunc(n, i, ts.Str), o...)
 		default:
@@ -416,7 +424,7 @@ func build(n *Node, e *Env) (z.ZogSchema, reflect.Type) {
 			case "special":
 				t.ContainsSpecial(o...)
 			case "oneof":
-				t.OneOf(convList[string](ts.Args), o...)
+				t.OneOf(own(e, convList[string](ts.Args)), o...)
 			default:
 				panic("model: string test " + ts.Name)
 			}
@@ -502,7 +510,7 @@ func build(n *Node, e *Env) (z.ZogSchema, reflect.Type) {
 			s.Required(e.reqOpts(n)...)
 		}
 		if n.Def != nil {
-			s.Default(TypedSlice(st, *n.Def))
+			s.Default(own(e, TypedSlice(st, *n.Def)))
 		}
 		for i, ts := range n.Tests {
 			o := e.opts(ts.Opts)
